@@ -13,6 +13,7 @@ package main
 
 import (
 	"context"
+	"encoding/json"
 	"fmt"
 	"iter"
 	"os"
@@ -20,14 +21,15 @@ import (
 	"sort"
 	"strings"
 	"sync"
+	"time"
 
-	"github.com/synnaxlabs/synnax/pkg/distribution/ontology"
-	"github.com/synnaxlabs/x/gorp"
 	"github.com/cockroachdb/pebble/v2"
 	"github.com/cockroachdb/pebble/v2/vfs"
+	"github.com/synnaxlabs/synnax/pkg/distribution/ontology"
+	"github.com/synnaxlabs/x/errors"
+	"github.com/synnaxlabs/x/gorp"
 	"github.com/synnaxlabs/x/kv"
 	"github.com/synnaxlabs/x/kv/pebblekv"
-	"github.com/synnaxlabs/x/errors"
 	"github.com/synnaxlabs/x/observe"
 	"github.com/synnaxlabs/x/query"
 	"github.com/synnaxlabs/x/zyn"
@@ -284,8 +286,8 @@ type finding struct {
 
 type stats struct {
 	Ops, DefrelOK, DefrelCycle, DefrelMissing, DefrelNoop, DefmanyOK, DefmanyRefused int
-	Traversals, TraversalsNonEmpty, RawScans, Commits, Aborts, DelresWithEdges     int
-	MaxDepth, MultiParent, EdgesPeak                                               int
+	Traversals, TraversalsNonEmpty, RawScans, Commits, Aborts, DelresWithEdges       int
+	MaxDepth, MultiParent, EdgesPeak                                                 int
 }
 
 // genericService answers every key of one resource type, so that traversals that load
@@ -393,7 +395,7 @@ func runScript(ids []string, miss string, ops []op, st *stats) (out []finding) {
 		if w.stop {
 			break
 		}
-		w.checkAll(o.K == "commit" || o.K == "abort" || i == len(ops)-1)
+		w.checkAll(o.K == "commit" || o.K == "abort" || i == len(ops)-1, o.touched())
 		if w.stop {
 			break
 		}
@@ -565,6 +567,9 @@ func (w *world) defineRel(wr ontology.Writer, m *model, o op) {
 
 func (w *world) defineRelMany(wr ontology.Writer, m *model, o op) {
 	err := wr.DefineFromOneToManyRelationships(w.ctx, mkID(o.From), ontology.RelationshipType(o.Typ), mkIDs(o.IDs))
+	if len(o.IDs) == 0 {
+		return // no relationship is defined: the statement fixes no outcome; the state checks still run
+	}
 	why := ""
 	for _, to := range o.IDs {
 		if m.edges[edge{o.From, o.Typ, to}] {
@@ -610,18 +615,48 @@ func (w *world) defineRelMany(wr ontology.Writer, m *model, o op) {
 // ---------------------------------------------------------------------------------------
 // observation
 
-func (w *world) checkAll(full bool) {
+// checkAll observes after every operation: the raw tables always; traversals from the
+// identifiers the operation touched always, and from every pool identifier at quiescent
+// points (commit, abort, end of history) and after every fourth operation.
+func (w *world) checkAll(full bool, touched []string) {
+	full = full || w.at%4 == 3
+	starts := touched
+	if full {
+		starts = append(append([]string{}, w.ids...), w.miss)
+	}
+	// a raw-table divergence ends the history (w.stop): traversals over a state that is
+	// already known to be wrong would only repeat the same defect under other signatures
 	if w.txm != nil {
 		w.checkRaw(w.tx, w.txm, "tx")
-		w.checkTraversals(w.tx, w.txm, "tx")
-		if full || w.at%4 == 0 {
+		if w.stop {
+			return
+		}
+		w.checkTraversals(w.tx, w.txm, "tx", starts)
+		if full {
 			w.checkRaw(nil, w.com, "committed")
-			w.checkTraversals(nil, w.com, "committed")
+			if w.stop {
+				return
+			}
+			w.checkTraversals(nil, w.com, "committed", starts)
 		}
 		return
 	}
 	w.checkRaw(nil, w.com, "committed")
-	w.checkTraversals(nil, w.com, "committed")
+	if w.stop {
+		return
+	}
+	w.checkTraversals(nil, w.com, "committed", starts)
+}
+
+func (o op) touched() []string {
+	t := append([]string{}, o.IDs...)
+	if o.From != "" {
+		t = append(t, o.From)
+	}
+	if o.To != "" {
+		t = append(t, o.To)
+	}
+	return uniqSorted(t)
 }
 
 func (w *world) checkRaw(tx gorp.Tx, m *model, view string) {
@@ -807,9 +842,8 @@ func filterTypes(xs []string, types []string) []string {
 	return out
 }
 
-func (w *world) checkTraversals(tx gorp.Tx, m *model, view string) {
+func (w *world) checkTraversals(tx gorp.Tx, m *model, view string, starts []string) {
 	const P = "parent"
-	starts := append(append([]string{}, w.ids...), w.miss)
 	for si, x := range starts {
 		one := []string{x}
 		ch := m.step(one, P, true)
@@ -1008,18 +1042,18 @@ func genScript(r *prng.R, quick bool) script {
 	for len(ops) < nOps {
 		x := r.Intn(100)
 		switch {
-		case x < 8:
+		case x < 12:
 			ops = append(ops, op{K: "defres", IDs: []string{pickAny()}})
-		case x < 11:
-			m := r.Range(0, 3)
+		case x < 15:
+			m := r.Range(1, 3)
 			l := []string{}
 			for i := 0; i < m; i++ {
 				l = append(l, pick())
 			}
 			ops = append(ops, op{K: "defmany", IDs: l})
-		case x < 55:
+		case x < 58:
 			ops = append(ops, op{K: "defrel", From: pickAny(), Typ: rt(), To: pickAny()})
-		case x < 63:
+		case x < 66:
 			m := r.Range(0, 4)
 			l := []string{}
 			for i := 0; i < m; i++ {
@@ -1028,18 +1062,18 @@ func genScript(r *prng.R, quick bool) script {
 			ops = append(ops, op{K: "defrelmany", From: pickAny(), Typ: rt(), IDs: l})
 		case x < 71:
 			ops = append(ops, op{K: "delres", IDs: []string{pick()}})
-		case x < 73:
+		case x < 72:
 			m := r.Range(0, 3)
 			l := []string{}
 			for i := 0; i < m; i++ {
 				l = append(l, pick())
 			}
 			ops = append(ops, op{K: "delmany", IDs: l})
-		case x < 81:
+		case x < 80:
 			ops = append(ops, op{K: "delrel", From: pickAny(), Typ: rt(), To: pickAny()})
-		case x < 84:
+		case x < 83:
 			ops = append(ops, op{K: "delout", From: pickAny(), Typ: rt()})
-		case x < 87:
+		case x < 86:
 			ops = append(ops, op{K: "delin", To: pickAny(), Typ: rt()})
 		default:
 			if !inTx {
@@ -1190,7 +1224,18 @@ type witness struct {
 
 // exec runs one script in the worker's child and folds a child death into the findings.
 func (w *worker) exec(h *harness.H, s script) ([]finding, stats) {
+	t0 := time.Now()
 	rs, died, err := w.run(s)
+	if died != nil {
+		h.Count("child_deaths", 1)
+		h.Count("wall_ms_in_dying_children", int(time.Since(t0).Milliseconds()))
+		if os.Getenv("VERIF_C16_DEBUG") != "" {
+			b, _ := json.Marshal(request{IDs: s.IDs, Miss: s.Miss, Ops: s.Ops})
+			fmt.Fprintf(os.Stderr, "DEATH ms=%d %s\n", time.Since(t0).Milliseconds(), b)
+		}
+	} else {
+		h.Count("wall_ms_in_children", int(time.Since(t0).Milliseconds()))
+	}
 	if err != nil {
 		fmt.Printf("HARNESS-ERROR: C16 child process plumbing failed: %v\n", err)
 		os.Exit(2)
@@ -1224,7 +1269,9 @@ func reportFindings(h *harness.H, w *worker, layer string, c int, s script, fs [
 		wit := witness{Original: len(s.Ops), IDs: s.IDs, Missing: s.Miss, Findings: all}
 		what := f.What
 		if sigs.first(f.Sig, 3) {
+			t0 := time.Now()
 			ms := minimise(s, f.Sig, run)
+			h.Count("wall_ms_minimising", int(time.Since(t0).Milliseconds()))
 			wit.IDs = ms.IDs
 			wit.Ops = ms.Ops
 			for _, o := range ms.Ops {
@@ -1236,12 +1283,49 @@ func reportFindings(h *harness.H, w *worker, layer string, c int, s script, fs [
 					break
 				}
 			}
-		} else {
-			wit.Ops = s.Ops
+			h.Violation(layer, c, f.Sig, what, wit)
+			continue
 		}
-		h.Violation(layer, c, f.Sig, what, wit)
+		// Later occurrences are not minimised. They are handed to the harness only after
+		// the layer has finished, so that the three witnesses it keeps per signature are
+		// the minimised ones.
+		wit.Ops = s.Ops
+		deferred.add(deferredViolation{layer, c, f.Sig, what, wit})
 	}
 }
+
+type deferredViolation struct {
+	layer string
+	c     int
+	sig   string
+	what  string
+	wit   witness
+}
+
+type deferredList struct {
+	mu sync.Mutex
+	l  []deferredViolation
+}
+
+func (d *deferredList) add(v deferredViolation) {
+	d.mu.Lock()
+	// all are counted; only the first few per signature need their witness kept in memory
+	d.l = append(d.l, v)
+	d.mu.Unlock()
+}
+
+func (d *deferredList) flush(h *harness.H) {
+	d.mu.Lock()
+	l := d.l
+	d.l = nil
+	d.mu.Unlock()
+	sort.SliceStable(l, func(i, j int) bool { return l[i].c < l[j].c })
+	for _, v := range l {
+		h.Violation(v.layer, v.c, v.sig, v.what, v.wit)
+	}
+}
+
+var deferred deferredList
 
 func addStats(h *harness.H, st *stats) {
 	h.Count("ops", st.Ops)
@@ -1273,7 +1357,7 @@ func scriptKey(s script) string {
 
 func layerSeq(h *harness.H) {
 	h.AddRule("seq: one case = one PRNG-generated history of 20-80 ontology operations (define/delete resource, define/delete relationship single and one-to-many over 4 relationship types, begin/commit/abort) over 4-11 identifiers drawn from a pool of prefix/suffix-related type:key strings; distinct = distinct operation script; non-trivial = at least one relationship accepted and at least one traversal compared against a non-empty expected set")
-	n := h.N(3000, 120000)
+	n := h.N(2000, 100000)
 	parallel(h, "seq", n, func(w *worker, c int) {
 		r := h.Rand("seq", c)
 		s := genScript(r, h.Quick())
@@ -1401,4 +1485,5 @@ func parallel(h *harness.H, layer string, n int, f func(w *worker, c int)) {
 	}
 	close(ch)
 	wg.Wait()
+	deferred.flush(h)
 }
